@@ -728,6 +728,17 @@ theorem delete_by_object_any_container (g : Graph) (c c' : Cont) (k : Nat)
   have hd : delKeys g c' k = delKeys g c k := by unfold delKeys; rw [hinfo]
   simp only [delTarget, hitem, hinfo, hown, hd, ↓reduceIte]
 
+open Nix.Store.DelShape in
+/-- the same **on the source's own statements**: the `__delitem__` of an owning container class, run as
+`container.py` spells it on an entity object of the item class, unlinks exactly that object (its subtree) —
+no statement of it looks the object up in the container (a change that does, like resolving it again by its
+name, no longer translates or breaks this theorem) -/
+theorem source_delete_by_object (g : Graph) (p : Path) (cn : String) (c : Cont) (k : Nat)
+    (hc : openCont g p cn = some c) (hown : isOwning c.info.flavour = true) (hk : kindOf g k = c.info.item) :
+    runDel Gen.h5Params (Gen.delitemOf (classOf c.info.flavour)) g c (.ent k) = .ok (g.deleteObjs (delKeys g c k)) := by
+  rw [delitem_follows_source g p cn c (.ent k) hc]
+  exact delete_by_object g c k hown hk
+
 /-- an object of another class is refused (TypeError), whatever the container holds -/
 theorem delete_by_object_wrong_class (g : Graph) (c : Cont) (k : Nat) (hk : kindOf g k ≠ c.info.item) :
     contDel g c (.ent k) = .error .typeError := by
